@@ -6,6 +6,7 @@ import (
 	"encoding/json"
 	"fmt"
 	"hash/fnv"
+	"math"
 	"os"
 	"path/filepath"
 	"runtime"
@@ -38,6 +39,9 @@ type c11Cfg struct {
 	// given becomes unreachable), forces a garbage collection while it holds the window, and puts the
 	// window back
 	Window bool `json:"window,omitempty"`
+	// Shrink: the buffer is put back as b.Slice(0, Length-1) (a window from frame 0 keeps the whole
+	// capacity and is a legal argument of Put); negZero: float holders also write -0.0
+	Shrink bool `json:"shrink,omitempty"`
 }
 
 type c11Case struct {
@@ -177,8 +181,15 @@ func (h *c11H) Run(id int) {
 				break
 			}
 		}
+		if dyn.Types[h.t].Kind == dyn.Float && n > 0 {
+			// inverted silence: a value that compares equal to zero but is not the zero a fresh buffer holds
+			fb.SetSample(n-1, dyn.F(math.Copysign(0, -1)))
+		}
 		schedx.Point("put")
 		h.release(id)
+		if cfg.Shrink && cfg.L > 0 {
+			b = b.Slice(0, cfg.L-1)
+		}
 		p.Put(b)
 	}
 	h.progress(id, cfg.M, len(h.fails[id]))
@@ -291,6 +302,10 @@ func c11Configs(tier string, race bool) []c11Cfg {
 	}
 	add(2, 1, -1, 0)
 	addBig(2, 1, -1, 0)
+	// buffers are put back as shorter windows from frame 0
+	for _, bv := range []bool{false, true} {
+		r = append(r, c11Cfg{T: "float64", C: 2, L: 1, K: 2, G: 2, M: 2, ByValue: bv, Bound: -1, Shrink: true}, c11Cfg{T: "int16", C: 1, L: 3, K: 4, G: 2, M: 2, ByValue: bv, Bound: 2, Shrink: true})
+	}
 	// only a window of each buffer is kept, with a garbage collection while it is held
 	for _, bv := range []bool{false, true} {
 		r = append(r, c11Cfg{T: "int16", C: 2, L: 1, K: 2, G: 2, M: 2, ByValue: bv, Bound: 1, Window: true}, c11Cfg{T: "float64", C: 1, L: 0, K: 600, G: 2, M: 1, ByValue: bv, Bound: 2, Window: true})
